@@ -182,7 +182,11 @@ func (u *Unit) run() {
 	st.assumeFact(app(">", st.gvars["now"].S, "0"))
 	st.gvars["spawned"] = intVal("0")
 	for _, g := range sortedGhosts(u.eng.cs.Ghosts) {
-		t := u.resolveType(u.pkg, g.Type)
+		gp := u.eng.pkgByPath(g.Pkg)
+		if gp == nil {
+			gp = u.pkg
+		}
+		t := u.resolveType(gp, g.Type)
 		st.gvars[g.Name] = u.freshVal(st, t, "g."+g.Name)
 	}
 	u.entryParams = names
@@ -287,6 +291,7 @@ func (u *Unit) finish(o *State) {
 	ds := o.defers
 	o.defers = nil
 	o.ctl = ""
+	savedRets := o.rets
 	for i := len(ds) - 1; i >= 0; i-- {
 		var nx []*State
 		for _, a := range after {
@@ -296,6 +301,9 @@ func (u *Unit) finish(o *State) {
 			nx = append(nx, ds[i].call(a)...)
 		}
 		after = nx
+	}
+	for _, a := range after {
+		a.rets = append([]*Val(nil), savedRets...)
 	}
 	for _, a := range after {
 		if a.ctl == "panic" || a.ctl == "end" {
@@ -594,17 +602,27 @@ func (e *Engine) solveAll(obls []*Obl) {
 		go func() {
 			defer wg.Done()
 			defer func() { <-sem }()
-			o.Result = runQuery(e.outDir+"/smt", o.Name, o.query(), e.timeoutS, o.Quant, e.seed)
+			to := e.timeoutS
+			if o.Cover && to > 3 {
+				to = 3
+			}
+			o.Result = runQuery(e.outDir+"/smt", o.Name, o.query(), to, o.Quant, e.seed)
 		}()
 	}
 	wg.Wait()
 }
 
+// ok: proof obligations must be unsat. Cover obligations (vacuity guards) fail only when definitely
+// unsatisfiable; an undecided cover (quantifiers: unknown/timeout) is reported as undecided, not as a failure.
 func (o *Obl) ok() bool {
 	if o.Cover {
-		return o.Result.Status == "sat"
+		return o.Result.Status != "unsat" && o.Result.Status != "stale"
 	}
 	return o.Result.Status == "unsat"
+}
+
+func (o *Obl) coverUndecided() bool {
+	return o.Cover && o.Result.Status != "sat" && o.Result.Status != "unsat"
 }
 
 var _ = token.NoPos
